@@ -2,6 +2,7 @@
 from props import cells
 
 RULE = ('the 7 fuzzy operators: EXHAUSTIVE over all tuples of <= 3 inputs drawn from the lattice {-1,-0.5,0,0.5,1,missing} (thorough: {k/4} and missing), every admissible k / Truest-Falsest / four weight vectors, plus random cases with up to 5 inputs; compared with the exact scalar definitions, with a random input order, and with the Coq model. non-trivial = distinct case with >= 2 inputs that differ in at least one cell')
+RULE += (" Every stream also has a stratified part: each command once per unusual element type (uint64 as the NetCDF reader returns for Positive Integer, uint8, int16), weighted commands with a weight of exactly 0 next to a cell missing only in that input, nine to twelve input layers, the same result mentioned twice, inputs re-laid in memory (Fortran order, transposed / reversed / strided views), B written before A, a Metadata argument on every third run. A sample of the cases is re-run under numpy.seterr(divide/invalid/over='raise') with warnings as errors; [A, B, A] lists in the lattice.")
 TRUSTED = ["exact reference evaluator in drivers/cells_common.py (written from the property statements and the user documentation)",
            "numpy.ma.std enters the model as the oracle sigma (checked against the exact variance to 2^-20 relative)"]
 ASSUMPTIONS = ["exact rational arithmetic; IEEE rounding is absorbed by the tolerance 2^-36 relative; nan/inf results are not printable into Coq and are judged by the oracle only"]
